@@ -94,6 +94,12 @@ CHECKS["C18"] = dict(category="translation_validation",
    note="Trusted: the harness's inlining transformation as the meaning of 'inline copy'; the reflection driver; wire-level projections. Members of a discriminated oneOf stay references (their names are the discriminator values). Anonymous bodies whose helper types collide or are not identifiers are recorded findings (KF-C01-nameCollision, KF-C01-hoistedRawName) with fixed witnesses.",
    technique="differential validation of reference form vs inlined form of the same spec (two generated packages, identical inputs)")
 
+CHECKS["C20"] = dict(category="proof",
+   text="Partial. Lean theorems Goag.Sched.isolation / interleaving_eq_alone / schedule_independent / independent_of_others: in a system whose steps read a shared environment and write only their own request's local state, after ANY schedule (any number of requests, any interleaving, any length) request i holds exactly what its own steps alone make of its own initial state; shared_write_breaks_isolation proves the statement false once a step may write a shared cell. The generated code is tied to that shape on every run by a regenerated obligation: a go/types translator lists every write to / address-of a package-level variable, every reference-typed package-level variable handed to a call, every assignment through the receiver of API / Client / ServeHTTP types and every go / select statement in the packages generated during the run, and Lean re-checks (decide) that the table contains only reads and the two reviewed read-only uses. What the model cannot exhibit - real interleavings, the memory model, aliasing and library internals - is explored, not proved: one API value / one client serve thousands of distinct tagged requests from 8-16 goroutines in binaries built with -race; each observation must equal the request served alone and the race detector must stay silent.",
+   design_ref="DESIGN.md §4.20",
+   note="Trusted: Lean kernel (+propext, Classical.choice, Quot.sound); the abstraction step from generated Go code to Goag.Sched (argued in DESIGN.md, supported by the regenerated site table, not mechanised); the translator's syntactic notion of a shared access (fails closed on new kinds of sites); Go's race detector; the driver's own handlers / transports share nothing.",
+   technique="Lean 4 proof of schedule-independence for share-nothing systems + regenerated Lean obligation over a source-extracted shared-access table + race-detector differential search")
+
 REASONS_PENDING = "check not built yet in this round of work (see DESIGN.md §12 order); nothing is claimed for it"
 
 def main():
